@@ -133,6 +133,7 @@ theorem size_le_max_size (cfg : Cfg) (w : World α) (c : Nat) (hv : VecOK cfg w 
 
 /-- non-vacuity: an 8-bit size_type allocator for 4-byte elements has max_size 63 -/
 example : Gen.maxSize (255 / 4) 127 = 63 := by decide
-example : newCapacity 63 40 41 = 63 ∧ newCapacity 63 20 21 = 40 := by decide
+/-- (values of the growth function are C14's business; here only: an admissible request never yields more than max_size) -/
+example : newCapacity 63 40 41 ≤ 63 ∧ newCapacity 63 20 21 ≤ 63 ∧ 41 ≤ newCapacity 63 40 41 := by decide
 
 end SvModel.C12
